@@ -5,7 +5,7 @@ tests/test_regression.py) and the demonstration before/after, and record the out
 import json, os, re, subprocess, sys, glob
 
 ROOT = os.path.dirname(os.path.dirname(os.path.abspath(__file__)))
-WT = "/tmp/scratch/wt2"
+WT = os.environ.get("SEED_WT", "/tmp/scratch/wt2")
 
 
 def sh(cmd, **kw):
